@@ -8,6 +8,13 @@
      (a) the complete parses after the last piece = those of the whole input fed at once
      (b) can_continue() = False after a prefix  =>  no extension of that prefix is accepted
          (the rest of the input, fuzzed members, all extensions by <= 2 units)
+     (a') the protocol path: the input handed to FandangoIO.add_receive in chunks -> one-unit fragments ->
+         parse_next_remote_packet (virtual clock) = the incremental parser fed the same fragments; its tree is
+         among the complete parses of the consumed prefix supplied at once; no longer prefix is accepted at once
+   Known finding C13/regex-nongreedy-split (scan_regex offers ONE `re.match` length per scan, so a fragment
+   boundary inside a regex match offers one more length): reported under that signature only if the result of
+   EVERY composition equals the exact prediction of that behaviour (incr_real.predict_split); anything else is
+   a violation.
 3. correspondence with the Lean model:
      (c) every recorded call of scan_bytes / scan_regex / scan_bit (state flags, prefix, rest of the
          fragment, column) vs scanEntry of the model: same states added to the same columns
@@ -19,6 +26,7 @@
 from __future__ import annotations
 
 import json
+import os
 import re
 from typing import Any
 
@@ -54,7 +62,31 @@ def mk_cases(run: Run, tier: str) -> list[dict]:
                   "features": ["corner"], "words": [[49, 50], [49, 50, 51]]})
     cases.append({"spec": '<start> ::= "abc" "d"?\n', "kind": "str", "cls": "corner", "features": ["corner"],
                   "words": [[97, 98, 99, 100], [97, 98, 99], [97, 98, 120]]})
+    # shapes of the open finding (a regex match that can end in more than one place), so that the exact
+    # prediction of it is exercised on every seed: acceptance itself depends on the cut; preferred-alternative
+    # regexes; repetition of a regex; bytes; a regex between literals; three-way splits
+    def w(x):
+        return [ord(c) for c in x] if isinstance(x, str) else list(x)
+    for spec, kind, words in [
+        ('<start> ::= <n> "3"\n<n> ::= r"[0-9]+"\n', "str", ["123", "1233", "3", "12"]),
+        ('<start> ::= <n> <k>\n<n> ::= r"ab|a"\n<k> ::= r"bc|c"\n', "str", ["abc", "ac", "abbc"]),
+        ('<start> ::= <n> <k>\n<n> ::= r"a|ab"\n<k> ::= r"bc|c"\n', "str", ["abc", "abbc"]),
+        ('<start> ::= <n> <k>?\n<n> ::= r"abc|a"\n<k> ::= "bc" | "b"\n', "str", ["abc", "ab", "abcb"]),
+        ('<start> ::= <w>*\n<w> ::= r"[a-z]+"\n', "str", ["abcd", "ab"]),
+        ('<start> ::= <k> "=" <v>\n<k> ::= r"[a-z]+"\n<v> ::= r"[a-z=]*[a-z]"\n', "str", ["a=b=c", "ab=c"]),
+        ('<start> ::= <n> <m> <n>\n<n> ::= r"[0-9]+"\n<m> ::= r"[0-9a-f]+"\n', "str", ["12a34", "1234"]),
+        ('<start> ::= <n> b"\\x31" | <n> <n> b"\\x32"\n<n> ::= rb"[0-9]+"\n', "bytes", [b"121", b"1212", b"112"]),
+        ('<start> ::= "x" <n> "1" "y"\n<n> ::= r"[0-9]*1"\n', "str", ["x111y", "x11y", "x1y"]),
+        # the same root cause in the other direction: a look-ahead is only satisfied once the following text is
+        # there, and a re-scan that does not get past the remembered prefix is dropped -> accepted at once,
+        # rejected as "a","b"
+        ('<start> ::= <x> "b"\n<x> ::= r"a(?=b)"\n', "str", ["ab"]),
+    ]:
+        cases.append({"spec": spec, "kind": kind, "cls": "corner", "features": ["corner", "regex-split"],
+                      "words": [w(x) for x in words]})
     n_gen = 400 if quick else 1600
+    if os.environ.get("VERIF_C13_NGEN"):      # development aid (mutation trials on a loaded machine); not a tier
+        n_gen = int(os.environ["VERIF_C13_NGEN"])
     classes = ["text", "regex", "bytes", "bits", "recursive"]
     for i in range(n_gen):
         cls = classes[i % len(classes)]
@@ -69,53 +101,6 @@ def mk_cases(run: Run, tier: str) -> list[dict]:
         c.setdefault("instrument_comps", 2 if quick else 4)
         c.setdefault("cc_enum", 1 if quick else 3)
     return cases
-
-
-# ------------------------------------------------------------------------------------------------
-# known finding: a regex match that a fragment boundary splits
-# ------------------------------------------------------------------------------------------------
-
-def tree_leaf_offsets(tj: list, off: int = 0) -> tuple[list, int]:
-    """[(offset, tag, payload)] of the text/bytes leaves, offsets in units (bits counted as 1/8)"""
-    if tj[0] == "n":
-        out = []
-        for k in tj[4]:
-            o, off = tree_leaf_offsets(k, off)
-            out += o
-        return out, off
-    if tj[0] == "i":
-        return [], off + 0.125
-    return [(off, tj[0], tj[1])], off + len(tj[1])
-
-
-def nongreedy_split(spec: str, kind: str, word: list[int], whole: list[str], other: list[str]) -> bool:
-    """the fragmented run found exactly the whole input's parses plus parses that contain a regex leaf which
-    is not the greedy match at its position"""
-    if not set(whole) <= set(other) or any(t.startswith("<raised") for t in other):
-        return False
-    pats = [m.group(2) for m in re.finditer(r'\br(b?)"((?:[^"\\]|\\.)*)"', spec)]
-    if not pats:
-        return False
-    text = "".join(chr(u) for u in word)          # latin-1 view for bytes input, as Terminal.check
-    for t in set(other) - set(whole):
-        leaves, _ = tree_leaf_offsets(json.loads(t))
-        hit = False
-        for off, _tag, payload in leaves:
-            if off != int(off):
-                continue
-            off = int(off)
-            val = "".join(chr(u) for u in payload)
-            for p in pats:
-                try:
-                    if re.fullmatch(p, val):
-                        m = re.match(p, text[off:])
-                        if m and len(m.group(0)) != len(val):
-                            hit = True
-                except re.error:
-                    pass
-        if not hit:
-            return False
-    return True
 
 
 # ------------------------------------------------------------------------------------------------
@@ -167,13 +152,22 @@ def check_result(run: Run, case: dict, res: dict, corr: list, scan_reqs: list, r
             what = (f"{spec.strip()!r} on {word}: {len(whole['final'])} complete parse(s) at once, "
                     f"{got} when fed as pieces of lengths {d['comp']} "
                     f"({rec['n_diffs']} of {rec['n_comps']} compositions differ)")
-            if not stable and all(nongreedy_split(spec, kind, word, whole["final"], x["final"])
-                                  for x in rec["diffs"]):
+            # The open finding has an exact, decidable signature (harness/impl/incr_real.py predict_split):
+            # the regex oracle is not cut-stable on this input AND the result of EVERY composition is exactly
+            # what "scan_regex offers one `re.match` length per scan" predicts (a parse is present iff each of
+            # its regex leaves has a length offered under that composition).  Anything else — a literal, byte or
+            # bit cut, a missing or an extra parse the prediction does not explain, an exception — is a violation.
+            if not stable and rec["split_mismatch"] is None:
                 run.count("known:regex-nongreedy-split")
+                run.count("known:outcomes", rec.get("n_outcomes", 0))
                 if run.counters["known:regex-nongreedy-split"] <= 3:   # a few witnesses on the console are enough
-                    run.report(SIG_SPLIT, what, replay)
+                    run.report(SIG_SPLIT, what + f"; every composition's result equals the one-length-per-scan "
+                               f"prediction ({rec.get('n_outcomes')} different results)", replay)
             else:
-                run.report("C13/fragmentation-dependent", what, replay)
+                mm = rec["split_mismatch"] or {"why": "the regex oracle is cut-stable on this input"}
+                replay["composition"] = mm.get("comp", replay["composition"])
+                run.report("C13/fragmentation-dependent", what + "; not explained by the regex split finding: "
+                           + json.dumps(mm)[:400], replay)
         # (b) can_continue soundness
         for u in rec["cc_unsound"]:
             run.report("C13/can-continue-unsound",
@@ -182,6 +176,44 @@ def check_result(run: Run, case: dict, res: dict, corr: list, scan_reqs: list, r
                        {"spec": spec, "kind": kind, "input": word[:u["prefix_len"]] + u["extension"],
                         "composition": [u["prefix_len"], len(u["extension"])], "check": "can_continue"})
         run.count("cc_false_prefixes", sum(1 for v in rec["cc_by_prefix"].values() if False in v))
+        # (a') the protocol path: add_receive -> one-unit fragments -> parse_next_remote_packet
+        io = rec.get("io")
+        if io is not None:
+            if "skip" in io:
+                run.count("io:skipped")
+            else:
+                run.count("io:runs")
+                run.count("io:packet" if "tree" in io else "io:" + io.get("raised", "?"))
+                ioreplay = {"spec": spec, "kind": kind, "input": word, "composition": io["chunks"], "check": "io"}
+                head = f"{spec.strip()!r}: {word} handed to FandangoIO.add_receive in chunks {io['chunks']}: "
+                d = io["direct"]
+                if not io["fragments_ok"]:
+                    run.report("C13/io-fragments", head + "the fragment list is not the input unit by unit", ioreplay)
+                elif ("tree" in io) != ("tree" in d) or io.get("tree") != d.get("tree") or \
+                        ("tree" in io and io["consumed"] != d["consumed"]):
+                    run.report("C13/io-differs-from-direct", head + "parse_next_remote_packet gives "
+                               f"{io.get('tree') or io.get('raised')} (consumed {io.get('consumed')}), the incremental "
+                               f"parser fed the same fragments gives {d.get('tree') or d.get('raised')} "
+                               f"(consumed {d.get('consumed')})", ioreplay)
+                elif "tree" in io and io["parties"] != ["Ext", "Fz"]:
+                    run.report("C13/io-parties", head + f"sender/recipient {io['parties']}", ioreplay)
+                elif "tree" in io and not io["in_once"]:
+                    what = head + (f"the packet's tree is not among the {io['n_once']} complete parse(s) of the "
+                                   f"consumed prefix {word[:io['consumed']]} supplied at once")
+                    if io.get("split_explains") and not stable:
+                        run.count("known:io-regex-nongreedy-split")
+                        if run.counters["known:io-regex-nongreedy-split"] <= 2:
+                            run.report(SIG_SPLIT, what + " (a regex leaf has a length only offered unit by unit)",
+                                       ioreplay)
+                    else:
+                        run.report("C13/io-parse-not-among-at-once", what, ioreplay)
+                elif io.get("longer_once") is not None and io.get("longer_explained") and not stable:
+                    run.count("known:io-regex-nongreedy-split")
+                elif io.get("longer_once") is not None:
+                    run.report("C13/io-shorter-than-at-once", head + f"consumed {io.get('consumed')} unit(s) but the "
+                               f"prefix of length {io['longer_once']} is accepted when supplied at once", ioreplay)
+                else:
+                    run.count("io:agree")
         # (c) scan calls
         for sc in rec["scans"]:
             req = {"op": "scan", "mode": sc["mode"], "term": sc["term"], "k": sc["k"], "inc": sc["inc"],
@@ -232,10 +264,10 @@ def compare_model(run: Run, corr: list, scan_reqs: list, run_reqs: list) -> None
                     bad = "complete parses"
                 elif m_res != rs["resumable"]:
                     bad = "resumable states"
-                elif ms["can_continue"] and not rs["can_continue"]:
+                elif ms["can_continue"] != rs["can_continue"]:
+                    # the model's canContinue is a line-by-line model: exact agreement after every piece
                     bad = "can_continue"
-                if ms["can_continue"] != rs["can_continue"]:
-                    run.count("corr:cc_impl_true_model_false")
+                run.count("corr:can_continue_compared")
                 if bad:
                     corr.append({"kind": "run", "what": bad, "spec": spec, "input": word, "pieces": req["pieces"],
                                  "step": i, "impl": rs, "model": {"leaves": m_leaves, "resumable": m_res,
@@ -266,6 +298,17 @@ def replay(path: str) -> int:
         bad = True
     else:
         print("complete parses in pieces:  the same")
+    if rp.get("check") == "io":
+        io = rec.get("io") or {}
+        print("protocol path (add_receive in chunks", io.get("chunks"), "):")
+        print("  packet:", io.get("tree") or io.get("raised"), "consumed", io.get("consumed"))
+        print("  incremental parser, same fragments:", io.get("direct"))
+        print("  tree among the parses of the consumed prefix at once:", io.get("in_once"),
+              "; longer prefix accepted at once:", io.get("longer_once"))
+        d = io.get("direct", {})
+        bad = (not io.get("fragments_ok", True)) or io.get("tree") != d.get("tree") or \
+            ("tree" in io and (io.get("consumed") != d.get("consumed") or not io.get("in_once"))) or \
+            io.get("longer_once") is not None
     if rp.get("check") == "can_continue":
         k = rp["composition"][0]
         v = rec["cc_by_prefix"].get(str(k))
@@ -282,8 +325,9 @@ def main(tier: str) -> int:
     lean = lean_check("Props.C13", ["drv_incr"])
     cases = mk_cases(run, tier)
     quick = tier == "quick"
-    results = run_pool("harness.impl.incr_real", cases, nproc=16, per_case_s=25 if quick else 90,
-                       hard_s=150 if quick else 1200)
+    # generous limits: the machine is shared, a loaded machine must not turn slow cases into missing cases
+    results = run_pool("harness.impl.incr_real", cases, nproc=16, per_case_s=60 if quick else 180,
+                       hard_s=900 if quick else 3000)
     corr: list = []
     scan_reqs: list = []
     run_reqs: list = []
